@@ -155,12 +155,19 @@ def check_invariant(ctx, num=3):
 
 def check_kills(ctx):
     P = ctx.P
-    kf = c11.killer(P)
-    ctx.touch(kf)
+    kfs = c11.killer_funcs(P)
     sites = [(fn_, c) for fn_, c in package_calls(P, "kill") if isinstance(c.func, ast.Attribute)]
     ctx.count_min("Container.kill call sites", len(sites), 2)
     for fn_, c in sites:
-        ctx.ob(5, "K1", "containers are killed only by the pool's OOM killer", fn_.node is kf.node, fn_, c, detail=f"kill call in {fn_.mod.rel}::{fn_.qual}")
+        ok = fn_.mod.rel == RP and fn_.cls == "ResourcePool"
+        ctx.ob(5, "K1", "containers are killed only by the pool's OOM killer (a ResourcePool method)", ok, fn_, c, detail=f"kill call in {fn_.mod.rel}::{fn_.qual}")
+    for kf in kfs:
+        _check_kills_in(ctx, P, kf)
+    _check_freeze(ctx, P, any(c11.classify_kills(kf, cfg_of(kf))[0] for kf in kfs))
+
+
+def _check_kills_in(ctx, P, kf):
+    ctx.touch(kf)
     g = cfg_of(kf)
     s1, s2, bad = c11.classify_kills(kf, g)
     for k in s1:
@@ -192,7 +199,6 @@ def check_kills(ctx):
     for k in bad:
         ctx.ob(6, "K2", "a container is killed only if its own demand exceeds its allocation or the pool's usage exceeds capacity", False, kf, k,
                detail=f"facts at the kill: {sorted(norm.show(x) for x in g.facts_at(k))}")
-    ctx.ob(6, "K2", "the killer has an individual-limit pass", len(s1) >= 1, kf, s1[0] if s1 else kf.node, construct="individual-limit kill", detail=f"{len(s1)} site(s)")
     # after the pool-level loop the usage fits or every candidate was killed: loop has no other exit than `fits` or exhaustion
     for k in s2:
         lp = enclosing_for(k, kf.node)
@@ -202,6 +208,11 @@ def check_kills(ctx):
         ok = all(norm.entails(g.facts_at(b), ("cmp", "<=", "self.consumed_ram_gb", "self.max_ram_pool")) for b in brk)
         ctx.ob(6, "K2", "the pool-level loop stops early only when usage fits into the pool", ok, kf, lp, construct="early exits of the victim loop",
                detail=f"{len(brk)} early exit(s); each requires consumed_ram_gb <= max_ram_pool")
+
+
+def _check_freeze(ctx, P, has_s1):
+    s1 = [1] if has_s1 else []
+    ctx.ob(6, "K2", "the killer has an individual-limit pass", has_s1, c11.killer_funcs(P)[0], c11.killer_funcs(P)[0].node, construct="individual-limit kill", detail=f"present: {has_s1}")
     # (7) freeze predicate
     gen = P.fn(CT, "Container._tick_generator")
     ctx.touch(gen)
